@@ -210,7 +210,7 @@ pub fn check(ctx: &Ctx) -> i32 {
     let mut ev = Evidence::default();
     ev.rule = "generated well-typed Fun programs in the effect-sequenced fragment (arguments of calls/constructors/destructors/operators and codata-typed bindings pure and total), binder names reused with probability 1/2 and drawn from a pool of compiler-style names (x0, a0, share_f_0, lab1, ...); oracle: Core abstract machine on compile_prog's output vs the CEK reference interpreter on the source (output, result, termination) plus distinctness of all top-level labels. Non-trivial: the program contains a binder shadowing a name in scope and the run executes a call, case or destructor; distinct by hash of (source, arguments).".into();
     ev.assumptions = vec!["Core machine and reference interpreter as in DESIGN.md 3.1/3.2".into()];
-    let n = ctx.tier.pick(6000, 400000);
+    let n = ctx.tier.pick(24000, 400000);
     let run = |b: &[u8]| {
         let c = decode(ctx, b);
         run_case(ctx, &c.prog, &c.tuples)
